@@ -17,4 +17,26 @@ CLAIMS = {
     },
 }
 
+CLAIMS["C06"] = {
+    "technique": "rapid state machine over packetio.Buffer compared with a FIFO-of-byte-slices model; free-running concurrent writers/readers with tagged packets",
+    "engine": "rapid-models",
+    "text": "Generated-input search: histories of Write/Read/SetLimit*/Close with lengths aimed at the ring end, the growth sizes and the 65535/65536 boundary are applied to the real Buffer and to a FIFO model; every Read is compared byte for byte, the writer's slice is scribbled over after every Write, and the final drain compares everything left. A second test runs real goroutines (1..3 writers, 1..2 readers) with tagged packets and checks exactly-once and per-writer order. Exploration only; the controlled-schedule concurrency lives in C08.",
+    "note": "Trusted: the FIFO model. A read-only shim (shims/packetio) exposes head/tail/capacity for case classification only; the oracle does not use it.",
+    "design_ref": "DESIGN.md §3 C06",
+}
+CLAIMS["C07"] = {
+    "technique": "rapid state machine with limit-aimed lengths; Count/Size and every accept/ErrFull verdict compared with the model after every operation (also under the packetioSizeHardlimit tag)",
+    "engine": "rapid-models",
+    "text": "Generated-input search: size limits around every growth size of the ring, 4 MiB +-3 and 5 MiB, count limits 0..6, changed at drawn points; write lengths derived from 'bytes missing to the active limit' in -3..3; after every operation Count() and Size() must equal the model and every Write must be accepted or refused with ErrFull exactly as the stated rule says (a write reaching exactly 4 MiB without a limit is 'either'). Also run against a build with the packetioSizeHardlimit tag. Exploration only.",
+    "note": "Trusted: the model's reading of the rule (harness/pktbuf/model.go WriteVerdict). Negative limits are not generated (undocumented).",
+    "design_ref": "DESIGN.md §3 C07",
+}
+CLAIMS["C20"] = {
+    "technique": "exhaustive enumeration of lengths x offsets x aliasing against a byte-wise reference, plus rapid cases up to 5000 bytes; xor_old.go compiled with its build constraint stripped",
+    "engine": "rapid-models",
+    "text": "Enumerated and generated inputs: all (len a, len b) up to 24 (quick) / 40 (thorough), all start offsets 0..7 of the three slices, aliasing none/dst==a/dst==b and three destination lengths, for the toolchain-selected XorBytes and for XorBytes, fastXORBytes and safeXORBytes of xor_old.go (compiled from the working tree with the build line removed); result, return value and every guard byte of the three backing arrays are compared with a byte-wise reference. rapid adds lengths up to 5000; a native fuzz target exists for the thorough tier. Exhaustive within the stated bounds, exploration beyond.",
+    "note": "xor_arm.go/xor_arm.s cannot be built or run on amd64 and are not covered. Trusted: the byte-wise reference loop.",
+    "design_ref": "DESIGN.md §3 C20",
+}
+
 PENDING_REASON = "check not built yet in this revision of /verif (planned, see DESIGN.md §3); nothing is claimed for it"
